@@ -44,7 +44,12 @@ def check_c13(tier):
                     os.symlink(os.path.join(d, "does_not_exist_%d" % i), fp)
                 else:
                     with open(fp, "w") as fh:
+                        if p["dirs"] == ["tests"] and p["file"] == "conftest.py":
+                            fh.write("from .helpermod import *\n")
                         fh.write(FILE_TMPL % (i, i, i))
+            # the module tests/conftest.py pulls in (its name is not a pytest file name)
+            with open(os.path.join(root, "tests", "helpermod.py"), "w") as fh:
+                fh.write("import pytest\n\n\n@pytest.fixture\ndef pulled_in_fixture():\n    return 1\n")
             trees[tk] = root
         root = trees[tk]
         hcases.append({"id": n, "ops": [{"op": "scan", "root": root, "excludes": sorted(c["ex"] or [])},
@@ -66,6 +71,14 @@ def check_c13(tier):
         for name in snap["ubf"]:
             if name.startswith("fx_"):
                 got_u.add(int(name[3:]))
+        pulled = bool(snap["defs"].get("pulled_in_fixture"))
+        V.count()
+        if pulled != c["pulledPy"]:
+            e4 = dict(ex, importer="tests/conftest.py", module="tests/helpermod.py", indexed=pulled, expected=c["pulledPy"])
+            if pulled == c["pulledImpl"] and c["blame"]:
+                V.classify(sorted(c["blame"]), e4, "the module a discovered conftest.py pulls in is not indexed exactly when its importer is")
+            else:
+                V.violation(e4, "the module a discovered conftest.py pulls in is not indexed exactly when its importer is")
         py = {index[path_key(p)] for p in c["py"]}
         impl = {index[path_key(p)] for p in c["impl"]}
         if got != got_u:
